@@ -1,5 +1,6 @@
 import PyrollModel.Gen.C14
 import PyrollProofs.RotLemmas
+import PyrollProofs.RotHist
 import PyrollProofs.RotReal
 import PyrollProofs.RotGeom
 
@@ -409,7 +410,117 @@ theorem rotate_zero_full (ring : List (Pt ℝ)) : rotPoly 0 ring = ring ∧ rotP
     have : rad (360 : ℝ) = 2 * Real.pi := by simp only [rad_real]; ring
     simp [rotateDeg, this, rotate_two_pi]
 
+/-! ## 7. further pre-processors on the class of the pass -/
+
+/-- `Unit.init_solve`: a factory returning `None` is skipped, every pre-processor is fed the output of the one before it, the
+output of the last one becomes the in profile -/
+theorem init_solve_as_read : FlowThreads Gen.C14.flow := ⟨by decide, by decide, by decide⟩
+
+/-- the in profile is the composition of ALL pre-processors in yield order applied to the incoming profile (for every
+profile type and every list of factories) -/
+theorem init_solve_threads {P : Type} (pres : List (Option (P → P))) (p : P) :
+    initSolve Gen.C14.flow pres p = some ((pres.filterMap id).foldl (fun q f => f q) p) :=
+  initSolve_threads init_solve_as_read pres p
+
+section discrete2
+variable {α : Type} [PyNum α]
+
+/-- **Further pre-processors are harmless.**  Whatever geometry-neutral pre-processors a (plug-in's) pass class registers before
+or after the inherited `rotator_factory` — returning new profiles or `None` — the pass is entered exactly as a plain pass is:
+the auto-rotator's output arrives as in profile (never "turned by neither"), for every setting and switch value. -/
+theorem extra_preprocessors_harmless (auto : Bool) (st : St α) (s : Setting α) (c : List String) (pres : List PreKind)
+    (h : OneFactory pres) : enterPassWith Gen.C14.flow T auto st s c pres = enterPass T auto st s c := by
+  unfold enterPassWith
+  rw [← enterPassV_eq]
+  exact applyPre_shaped init_solve_as_read st pres h _ (enterPassV_shaped st _ c)
+
+/-! ## 8. histories: a sequence that is solved, edited and solved again -/
+
+/-- `rotator_factory` starts with `roll_pass.__cache__.pop("rotation", None)`: the value cached by an earlier solve is
+discarded before `rotation` is read -/
+theorem cache_as_read : Gen.C14.cache = ⟨true⟩ := by decide
+
+/-- **Every arrangement, however it was reached.**  For EVERY history — any sequence of solves of arrangements over the same
+pass objects (units inserted, removed, replaced, reordered, settings changed, the switch toggled in between), any number of
+outer iterations per solve, any caches to start with, any geometry-neutral further pre-processors on the pass classes — each
+solve ends in exactly the observations a freshly built sequence gives (`runSeq`, about which sections 1–3 speak). -/
+theorem resolve_any_history (cls0 : List String) (hs : List (Step α)) (store : Store) (hok : ∀ h ∈ hs, PresOk h.us) :
+    runHistory Gen.C14.flow T Gen.C14.cache cls0 store hs = hs.map (fun h => runSeq T h.auto cls0 (h.us.map Slot.u)) :=
+  runHistory_fresh init_solve_as_read (by rw [cache_as_read]) cls0 hs store hok
+
+/-- the auto-rotator of an observation exists -/
+def hasAuto (o : Obs α) : Bool := (autoOf o).isSome
+
+/-- **Why the discarding statement is needed** — witness for the source shape WITHOUT it (`⟨false⟩`; the statement above is
+false there, this was the behaviour of pyroll-core before the repair c84139f): solve
+`[pass, transport, pass]` with the switch on, switch it off, solve again with one outer iteration — the second pass is still
+entered through an auto-rotator (first list: first solve, second list: second solve; compare `global_off_only_explicit`).
+The harness replays this history on the implementation (`CORPUS_HIST`). -/
+theorem stale_cache_witness :
+    (runHistory (α := α) Gen.C14.flow T ⟨false⟩ ["round"] []
+      [⟨true, 0, [⟨0, .pass .unset ["oval"], [.factory]⟩, ⟨1, .transport, []⟩, ⟨2, .pass .unset ["round"], [.factory]⟩]⟩,
+       ⟨false, 0, [⟨0, .pass .unset ["oval"], [.factory]⟩, ⟨1, .transport, []⟩, ⟨2, .pass .unset ["round"], [.factory]⟩]⟩]).map
+      (fun obs => obs.map hasAuto) = [[true, false, true], [true, false, true]] := by
+  have hr : ∀ a b, ruleAngle Gen.C14.rules a b = some (specAngle a b) := rule_table
+  simp [runHistory, solveH, goH, entryValue, cacheAfter, fnValue, Store.get, Store.set, Store.erase, enterPassV, applyPre,
+    initSolve, runPre, preFn, rotationValue, firstFn, RotFn.eval, detect, walkLoop, testKind, factory, RotVal.truthy,
+    RotVal.ofBool, resolveAngle, hr, specAngle, hasAuto, autoOf, Obs.isErr, T, Gen.C14.tables, Gen.C14.walk,
+    Gen.C14.rotationFns, Gen.C14.factory, Gen.C14.flow, List.lookup]
+
+/-- **What holds for either source shape:** from the SECOND outer iteration of a solve on, the final state is that
+of a freshly built sequence — whatever caches the earlier solves left, whatever `Gen.C14.cache` says (pass objects listed
+once, `passIds … Nodup`).  Only a solve that stops after ONE outer iteration (converged at once against the results kept from
+the previous solve, `max_iteration_count = 2`, a pass solved on its own) can end with the stale decision of
+`stale_cache_witness`. -/
+theorem second_iteration_right (auto : Bool) (us : List (Slot α)) (st : St α) (h : PresOk us) (hn : (passIds us).Nodup)
+    (n : Nat) (store : Store) :
+    (solveH Gen.C14.flow T Gen.C14.cache auto (n + 1) store st us).1 = go T auto st (us.map Slot.u) :=
+  solveH_second_iteration tables_as_read init_solve_as_read Gen.C14.cache auto us st h hn n store
+
+end discrete2
+
 /-! ## non-vacuity: concrete instances -/
+
+/-- `second_iteration_right` on the edited arrangement of `stale_cache_witness`' kind, started from stale caches -/
+example : (solveH Gen.C14.flow T Gen.C14.cache true 1 [(0, true), (2, true)] (⟨[], ["round"], 0⟩ : St ℝ)
+      [⟨0, .pass .unset ["oval"], [.factory]⟩, ⟨3, .rotator (some 0), []⟩, ⟨2, .pass .unset ["round"], [.factory]⟩]).1
+    = go T true ⟨[], ["round"], 0⟩ [.pass .unset ["oval"], .rotator (some 0), .pass .unset ["round"]] := by
+  refine second_iteration_right true _ _ ?_ (by simp [passIds]) 0 _
+  intro sl hsl hp
+  simp only [List.mem_cons, List.mem_nil_iff, or_false] at hsl
+  rcases hsl with rfl | rfl | rfl
+  · exact ⟨[], [], rfl, by simp, by simp⟩
+  · simp [U.isPass] at hp
+  · exact ⟨[], [], rfl, by simp, by simp⟩
+
+/-- `OneFactory`: a plug-in's neutral pre-processor behind, one returning `None` in front of the rotator factory -/
+example : OneFactory [.absent, .factory, .neutral] := ⟨[.absent], [.neutral], rfl, by simp, by simp⟩
+
+/-- `extra_preprocessors_harmless` on such a class, behind `[pass, transport]`, setting 45 -/
+example : enterPassWith Gen.C14.flow T true (⟨[.transport, .pass], ["oval"], 0⟩ : St ℝ) (.num 45) ["round"]
+    [.absent, .factory, .neutral] = .pass (.num 45) (some 45) (0 + 45) (marksOut T.marks ["oval"] (45 : ℝ)) := by
+  have h : OneFactory [.absent, .factory, .neutral] := ⟨[.absent], [.neutral], rfl, by simp, by simp⟩
+  rw [extra_preprocessors_harmless _ _ _ _ _ h, explicit_number_real]
+  norm_num
+
+/-- `resolve_any_history` on: solve `[pass₀, transport, pass₂]`, insert `Rotator(0)`, solve again (one iteration) -/
+example : runHistory Gen.C14.flow T Gen.C14.cache ["round"] []
+      ([⟨true, 0, [⟨0, .pass .unset ["oval"], [.factory]⟩, ⟨1, .transport, []⟩, ⟨2, .pass .unset ["round"], [.factory]⟩]⟩,
+        ⟨true, 0, [⟨0, .pass .unset ["oval"], [.factory]⟩, ⟨3, .rotator (some 0), []⟩, ⟨1, .transport, []⟩,
+                   ⟨2, .pass .unset ["round"], [.neutral, .factory]⟩]⟩] : List (Step ℝ))
+    = [runSeq T true ["round"] [.pass .unset ["oval"], .transport, .pass .unset ["round"]],
+       runSeq T true ["round"] [.pass .unset ["oval"], .rotator (some 0), .transport, .pass .unset ["round"]]] := by
+  rw [resolve_any_history]
+  · rfl
+  · intro h hh sl hsl hp
+    simp only [List.mem_cons, List.mem_nil_iff, or_false] at hh
+    rcases hh with rfl | rfl <;> simp only [List.mem_cons, List.mem_nil_iff, or_false] at hsl <;>
+      rcases hsl with rfl | rfl | rfl | rfl <;>
+      first
+        | exact ⟨[], [], rfl, by simp, by simp⟩
+        | exact ⟨[.neutral], [], rfl, by simp, by simp⟩
+        | (simp [U.isPass] at hp)
+
 
 /-- `exactly_once_run` on `[pass, transport, Rotator(90), pass]` fed with a round profile: the second pass does not rotate -/
 example : ∃ st o, stateAt T true (⟨[], ["round"], 0⟩ : St ℝ)
